@@ -776,6 +776,8 @@ def _guard_div(d):
     c = CUR
     if c is not None and c.sym and getattr(c, 'div_policy', 'cut') == 'cut':
         c.assume_div(d)
+    elif c is not None and c.sym:
+        c.div_terms.append(d)      # 'total' policy: remembered so that counterexample models can avoid zero denominators (replayable in doubles)
 
 
 def sym_pow(a, b):
@@ -857,6 +859,7 @@ class Explorer:
             self.new_alts = []
             self.names = {}
             self.uf_log = {}
+            self.div_terms = []
             self._fresh = 0
             self.memo = {}
             self.path_cex = []
@@ -1460,6 +1463,22 @@ class Explorer:
             self.stats.unknowns.append(label)
             return None
         m = msolver.model()
+        if getattr(self, 'div_terms', None) and not isinstance(cond, bool):
+            # prefer a counterexample in which no (C-style, unchecked) division has a zero denominator: such a model can be replayed in doubles
+            try:
+                s3 = z3.Solver()
+                s3.set('timeout', min(self.timeout_ms, 10000))
+                s3.add(*self.pc)
+                s3.add(neg)
+                seen_d = set()
+                for d_ in self.div_terms:
+                    if d_.get_id() not in seen_d:
+                        seen_d.add(d_.get_id())
+                        s3.add(d_ != 0)
+                if str(s3.check()) == 'sat':
+                    m = s3.model()
+            except z3.Z3Exception:
+                pass
         model = {}
         for n, v in self.names.items():
             val = m.eval(v, model_completion=True)
